@@ -11,7 +11,7 @@ MANIFEST = {
                  "stsd, visual sample entry, each decoder transcribed from its own Go text) + a generic delegation theorem instantiated for "
                  "every pair that a go/ast + go/types source-fact extractor, re-run on every check, classifies as delegating with a "
                  "position-relative SR decoder (facts written to coq/c03/C03Facts.v and decided by vm_compute theorems; the extractor is "
-                 "re-tested on every run against a hand-checked table, 16 hand rewrites of a scratch copy of the sources and the reader "
+                 "re-tested on every run against a hand-checked table, 17 hand rewrites of a scratch copy of the sources and the reader "
                  "methods observed at run time) + generated registry facts + differential "
                  "correspondence (extracted OCaml vs Go: decoded fields, sizes, positions, outcome classes) + the property itself "
                  "evaluated on testdata files, harvested and generated boxes and mutants (structural comparison of the two decodings)",
@@ -48,10 +48,10 @@ MANIFEST = {
                   "generated coq/c03/C03Facts.v): each of the 134 registered box types has a reader-path decoder that is (i) DELEGATING - "
                   "exactly [guards on the header alone, repeated at the start of the SR decoder;] data, err := readBoxBody(r, hdr); if err != "
                   "nil { return nil, err }; sr := bits.NewFixedSliceReader(data); return S(hdr, startPos, sr) with S the decoder registered in "
-                  "decodersSR under the same key - and S uses its reader only through position-relative operations (73 types: "
+                  "decodersSR under the same key - and S uses its reader only through position-relative operations (74 types: "
                   "C03_delegate_sound_ext / C03_delegating_pair_agree, proved once for all extended reader programs: ReadUintN/IntN, ReadBytes, "
                   "ReadFixedLengthString with any count, zero-terminated strings with a count below 2^62, SkipBytes, AccError, positions relative "
-                  "to the entry; buffers below 2^61 bytes), or delegating and named (visual sample entry: its pair theorem; emsg esds evte meta "
+                  "to the entry; buffers below 2^61 bytes), or delegating and named (visual sample entry: its pair theorem; esds evte meta "
                   "sgpd stpp trep wvtt: explored); (ii) a CONTAINER TWIN - the same text around DecodeContainerChildren / ...SR (17 types: "
                   "the container kind of C03_decode_agree_canonical; edts sinf stbl, whose SR decoder also returns sr.AccError(): explored) or "
                   "moov/moof (reader path reads the body and runs the SR text on it: KContBody with the extracted flag); (iii) SEPARATELY "
@@ -133,7 +133,7 @@ EXPECT_DEC = {
     "ctim": ("DecodeCtim", "delegating", True), "CoLL": ("DecodeCoLL", "delegating", True), "vpcC": ("DecodeVppC", "delegating", True),
     "emib": ("DecodeEmib", "delegating", True), "hdlr": ("DecodeHdlr", "delegating", True),
     # delegating, SR decoder position-dependent
-    "emsg": ("DecodeEmsg", "delegating", False), "meta": ("DecodeMeta", "delegating", False), "esds": ("DecodeEsds", "delegating", False),
+    "emsg": ("DecodeEmsg", "delegating", True), "meta": ("DecodeMeta", "delegating", False), "esds": ("DecodeEsds", "delegating", False),
     "avc1": ("DecodeVisualSampleEntry", "delegating", False), "sgpd": ("DecodeSgpd", "delegating", False),
     "trep": ("DecodeTrep", "delegating", False), "stpp": ("DecodeStpp", "delegating", False), "wvtt": ("DecodeWvtt", "delegating", False),
     "evte": ("DecodeEvte", "delegating", False),
@@ -191,6 +191,8 @@ MUTATIONS = [
     ("colr-sr-absolute-position", "mp4/colr.go", "\t\tc.ICCProfile = sr.ReadBytes(hdr.payloadLen() - 4)",
      "\t\tc.ICCProfile = sr.ReadBytes(hdr.payloadLen() - sr.GetPos())",
      "dec", "colr", ("delegating", False)),
+    ("emsg-sr-absolute-position", "mp4/emsg.go", "\tnrBytesRead := currPos - initPos + boxHeaderSize\n", "\tnrBytesRead := currPos + boxHeaderSize\n",
+     "dec", "emsg", ("delegating", False)),
     ("kind-sr-unbounded-string", "mp4/kind.go", "\tmaxLen := hdr.payloadLen() - 4 - 1\n",
      "\tmaxLen := int(hdr.Size)\n",
      "dec", "kind", ("delegating", False)),
@@ -353,7 +355,7 @@ def run_mutations(ctx, exe, decs0, encs0):
     base_dec = {d["key"]: class_str(d) for d in decs0}
     base_enc = {e["type"]: e["class"] for e in encs0}
     pre = {"btrt": "delegating", "tfhd": "delegating", "stts": "delegating", "mvhd": "delegating", "ftyp": "delegating", "CoLL": "delegating",
-           "colr": "delegating", "kind": "delegating", "free": "raw-body", "emeb": "pure-twin", "dinf": "container-twin", "moov": "container-body",
+           "colr": "delegating", "kind": "delegating", "emsg": "delegating", "free": "raw-body", "emeb": "pure-twin", "dinf": "container-twin", "moov": "container-body",
            "BtrtBox": "delegating", "DinfBox": "container", "MoofBox": "twin"}
     base = os.path.join(common.BUILD, "c03-mut-%d" % os.getpid())
     res = {"applied": 0, "detected": 0, "skipped": 0, "results": [], "missed": []}
